@@ -54,3 +54,9 @@ pub mod websocket {
     /// The name of the Warp protocol for negotiation web-socket connections.
     pub const WARP: &str = "warp0";
 }
+
+/// Verification hooks (only with `--cfg swimos_verif`): exposes the envelope encoder.
+#[cfg(swimos_verif)]
+pub mod verif_hooks {
+    pub use crate::task::VerifReconEncoder as ReconEncoder;
+}
